@@ -438,7 +438,9 @@ def accumulation(b, v, tier):
         exp = b"".join(singles.get(cfg, g)["out"] for g in goods)
         for what, gen in families.items():
             count = reps if "runs of" not in what else max(8, reps // 300)
-            lines = [goods[0]] + [gen(i) for i in range(count)] + goods[1:]
+            # (every other family: the malformed lines come first - the log does not start with an entry)
+            lead = 1 if len(what) % 2 == 0 else 0
+            lines = goods[:lead] + [gen(i) for i in range(count)] + goods[lead:]
             data = ("\n".join(lines) + "\n").encode("utf-8")
             for ic in ("file", "stdin"):
                 r = sl.cli_channel_run(b, data, cfg, ic, "stdout", wd, "acc", timeout=600)
@@ -447,7 +449,7 @@ def accumulation(b, v, tier):
                 v.nontrivial(("accumulation", what, cfg.name, ic))
                 got = r["out"] or b""
                 rep = {"family": what, "malformed_lines": count, "flags": cfg.flags, "input_channel": ic, "exit": r["rc"], "stderr": r["stderr"][:300],
-                       "ordinary_lines_expected": len(goods), "output_lines": got.count(b"\n"), "example_malformed_line": lines[1][:200]}
+                       "ordinary_lines_expected": len(goods), "output_lines": got.count(b"\n"), "example_malformed_line": lines[lead][:200], "malformed_lines_come_first": not lead}
                 if crash_signature(r["rc"], r["stderr"]):
                     v.violation("many malformed lines in one run crash it (%s)" % what, rep)
                 elif r["rc"] != 0:
@@ -459,6 +461,44 @@ def accumulation(b, v, tier):
                         v.violation("ordinary lines that follow many malformed lines are lost or altered (%s)" % what, rep)
                     elif len(whole) > len(goods) + count:
                         v.violation("malformed lines yield more than one output line each (%s)" % what, rep)
+    shutil.rmtree(wd, ignore_errors=True)
+    return n
+
+
+def magic_first_lines(b, v, tier):
+    """Raw bytes in front: a first line that starts with the signature of a compressed / binary format (but is just a damaged line of a
+    plain-text log) must cost that line only - on every input channel that is not declared compressed by its name."""
+    wd = tempfile.mkdtemp(prefix="c07magic-", dir=b.root)
+    pool = sl.Pool(v.seed)
+    goods = [pool.obj_line("cmd", j, 5800000 + j) for j in range(3)]
+    cfg = sl.SCfg("plain", [], {})
+    singles = sl.Singles(b, wd)
+    singles.need(cfg, goods)
+    exp = b"".join(singles.get(cfg, g)["out"] for g in goods)
+    magics = {"gzip": b"\x1f\x8b\x08\x00", "gzip (2 bytes)": b"\x1f\x8b", "zstd": b"\x28\xb5\x2f\xfd", "bzip2": b"BZh91AY&SY", "xz": b"\xfd7zXZ\x00", "zip": b"PK\x03\x04",
+              "lz4": b"\x04\x22\x4d\x18", "UTF-16 BOM": b"\xff\xfe{\x00", "NUL bytes": b"\x00\x00\x00", "snappy": b"\xff\x06\x00\x00sNaPpY"}
+    n = 0
+    body = ("\n".join(goods) + "\n").encode("utf-8")
+    for name, mg in magics.items():
+        for where in ("first", "second"):
+            junk = mg + b" \x01\x02 damaged entry\n"
+            data = junk + body if where == "first" else body[:body.index(b"\n") + 1] + junk + body[body.index(b"\n") + 1:]
+            for ic in ("file", "stdin"):
+                r = sl.cli_channel_run(b, data, cfg, ic, "stdout", wd, "mg", timeout=120)
+                n += 1
+                v.count()
+                v.nontrivial(("magic", name, where, ic))
+                got = r["out"] or b""
+                rep = {"first_bytes": mg.hex(), "format_signature": name, "position": where + " line", "input_channel": ic, "exit": r["rc"], "stderr": r["stderr"][:300],
+                       "output_lines": got.count(b"\n"), "expected_lines": len(goods)}
+                if crash_signature(r["rc"], r["stderr"]):
+                    v.violation("a line that starts with the signature of a binary format crashes the run (%s)" % name, rep)
+                elif r["rc"] != 0:
+                    v.violation("a line that starts with the signature of a binary format stops the run (%s, %s line, input from %s)" % (name, where, ic), rep)
+                else:
+                    mine = b"".join(w.rstrip(b"\n") + b"\n" for w in sl.out_lines(got)[0] if any(str(5800000 + j).encode() in w for j in range(3)))
+                    if mine != exp:
+                        v.violation("ordinary lines around a line that starts with the signature of a binary format are lost or altered (%s)" % name, rep)
     shutil.rmtree(wd, ignore_errors=True)
     return n
 
@@ -513,10 +553,11 @@ def run(tier):
     nhostile = hostile_names(b, v, tier)
     limit, nprobes = nesting_and_limit(b, v, tier)
     nacc = accumulation(b, v, tier)
+    nmagic = magic_first_lines(b, v, tier)
     v.cov.update({"states": t.distinct + t2.distinct + t3.distinct + tstates, "transitions": t.generated + t2.generated + t3.generated,
                   "traces_validated_against_impl": acc, "traces_rejected": len(rej), "exhaustive": tier == "thorough",
                   "stream_terminal_states_replayed": len(recs), "walker_cases": rp.records, "walker_flag_sets": [c.desc() for c in cs],
-                  "walker_crashed_lines": rp.crashes, "mutated_lines": nmut, "hostile_name_lines": nhostile, "measured_reader_limit_bytes": limit, "nesting_probes": nprobes, "accumulation_runs": nacc,
+                  "walker_crashed_lines": rp.crashes, "mutated_lines": nmut, "hostile_name_lines": nhostile, "measured_reader_limit_bytes": limit, "nesting_probes": nprobes, "accumulation_runs": nacc, "binary_signature_runs": nmagic,
                   "line_kinds": list(KINDS),
                   "rule": "(1) every sequence of <= 3 line kinds incl. over-long lines (quick: all of length <= 2 and 1500 of length 3) through the real CLI, "
                           "judged: no crash signature, exit 0 unless a line exceeds the limit (then exit != 0 with a message and the line neither passed through "
